@@ -178,10 +178,10 @@ class BolfiPosterior:
             (self.threshold - mean) * 0.5 * grad_var / std
         factor = factor / var
         term = (self.threshold - mean) / std
-        pdf = ss.norm.pdf(term)
-        cdf = ss.norm.cdf(term)
+        # pdf / cdf in log space: the cdf underflows to zero where the mean is far above the threshold
+        pdf_per_cdf = np.exp(ss.norm.logpdf(term) - ss.norm.logcdf(term))
 
-        grad[logi, :] = factor * pdf / cdf
+        grad[logi, :] = factor * pdf_per_cdf
 
         if ndim == 0 or (ndim == 1 and self.dim > 1):
             grad = grad[0]
